@@ -464,6 +464,7 @@ func DictKeysWritten(info *types.Info, root ast.Node, shortPkg, typ string) map[
 // such a map (helper getters), inside root.
 func DictKeysRead(info *types.Info, root ast.Node, shortPkg, typ string) map[string][]ast.Node {
 	out := map[string][]ast.Node{}
+	var nonConst []ast.Node
 	lhs := map[ast.Expr]bool{}
 	ast.Inspect(root, func(n ast.Node) bool {
 		if s, ok := n.(*ast.AssignStmt); ok {
@@ -481,10 +482,34 @@ func DictKeysRead(info *types.Info, root ast.Node, shortPkg, typ string) map[str
 			}
 			if m, k, ok := MapIndexKey(info, e); ok && IsNamed(info.TypeOf(m), shortPkg, typ) {
 				out[k] = append(out[k], e)
+			} else if IsNamed(info.TypeOf(e.X), shortPkg, typ) {
+				nonConst = append(nonConst, e)
 			}
 		}
 		return true
 	})
+	// table-driven reading: d[entry.key] in a loop over a table of keys.  The
+	// keys read are then the string constants of the composite literals in
+	// the function (an over-approximation of what is read).
+	if len(nonConst) > 0 {
+		ast.Inspect(root, func(n ast.Node) bool {
+			cl, ok := n.(*ast.CompositeLit)
+			if !ok {
+				return true
+			}
+			for _, el := range cl.Elts {
+				v := el
+				if kv, isKV := el.(*ast.KeyValueExpr); isKV {
+					v = kv.Value
+				}
+				if tv, has := info.Types[v]; has && tv.Value != nil && tv.Value.Kind() == constant.String {
+					k := constant.StringVal(tv.Value)
+					out[k] = append(out[k], nonConst[0])
+				}
+			}
+			return true
+		})
+	}
 	return out
 }
 
